@@ -342,11 +342,12 @@ def run(ctx):
     # exhaustive: every verb with every path of <= L components, from every working directory, user shell
     L = ctx.pick(2, 3)
     nex = 0
-    for wd in WDS:
-        for verbs in (READ_VERBS, WRITE_VERBS):
-            for b in batches(exhaustive_lines(verbs, ctx.pick(CORE, FULL), 1, L, wd), K):
-                traces.append(run_session(server, False, ["CWD " + wd] + b))
-                nex += len(b)
+    for alpha, hi in ((CORE, L),) if ctx.quick else ((CORE, L), (FULL, L - 1)):
+        for wd in WDS:
+            for verbs in (READ_VERBS, WRITE_VERBS):
+                for b in batches(exhaustive_lines(verbs, alpha, 1, hi, wd), K):
+                    traces.append(run_session(server, False, ["CWD " + wd] + b))
+                    nex += len(b)
     # one component more for the deepest working directory
     for verbs in (("CWD", "RETR"), ("STOR", "RNTO")) if ctx.quick else (READ_VERBS, WRITE_VERBS):
         for b in batches(exhaustive_lines(verbs, DEEP, L + 1, L + 1, WDS[2]), K):
@@ -359,14 +360,15 @@ def run(ctx):
             nex += len(b)
     ctx.log("exhaustive: %d commands in %d sessions" % (nex, len(traces)))
     # random long sessions
-    nrand = ctx.pick(60, 3000)
+    nrand = ctx.pick(60, 1500)
     for i in range(nrand):
         traces.append(run_session(server, rng.random() < 0.2, random_session(rng, ns, rng.randint(10, 40))))
     # spec -> code: the model's transition cover (printed by TLC during the exhaustive run) replayed as sessions
     # on the real server; the model's predicted reply class and accesses are compared with the real ones.
     ncover = len(behs)
-    if ctx.quick and len(behs) > 300:
-        behs = [behs[i] for i in sorted(rng.sample(range(len(behs)), 300))]
+    cap = ctx.pick(300, 3000)
+    if len(behs) > cap:
+        behs = [behs[i] for i in sorted(rng.sample(range(len(behs)), cap))]
     ndrift, nsteps, examples = 0, 0, []
     for b in behs:
         lines = [h["cmd"] + " " + concrete(h["arg"]) for h in b["hist"]]
